@@ -1,6 +1,7 @@
 package c03
 
 import (
+	bt "github.com/libsv/go-bt/v2"
 	"bytes"
 	"fmt"
 	"testing"
@@ -56,14 +57,36 @@ func (e Edit) applyModel(m *ref.Tx) {
 		m.Version = uint32(e.U64)
 	case "locktime":
 		m.LockTime = uint32(e.U64)
+	case "dupin": // the very same input object once more (two slots, one *bt.Input)
+		if len(m.In) < 8 {
+			m.In = append(m.In, m.In[e.At%len(m.In)])
+		}
+	case "appendunlock":
+		i := e.At % len(m.In)
+		if !m.In[i].UnlockNil {
+			m.In[i].Unlock = append(append(pbt.Hex{}, m.In[i].Unlock...), e.B...)
+		}
+	case "elsewhere": // the caller works on another transaction it parsed; this one does not change
 	}
 }
+
+// elsewhereBytes is an unrelated unsigned transaction (two inputs with empty unlocking scripts).
+var elsewhereBytes = ref.Encode(ref.Tx{Version: 1, In: []ref.In{
+	{TxID: bytes.Repeat([]byte{0x21}, 32), Vout: 1, Seq: 0xffffffff, Unlock: pbt.Hex{}},
+	{TxID: bytes.Repeat([]byte{0x22}, 32), Vout: 2, Seq: 0xffffffff, Unlock: pbt.Hex{}}},
+	Out: []ref.Out{{Sats: 5, Script: pbt.Hex{0x51}}}}, false)
 
 func checkEdits(ctx *pbt.Ctx, c EditCase) error {
 	m := c.Tx
 	m.In = append([]ref.In{}, c.Tx.In...)
 	m.Out = append([]ref.Out{}, c.Tx.Out...)
 	tx := ref.ToLib(m)
+	var undo []*bscript.Script
+	defer func() {
+		for _, s := range undo {
+			*s = (*s)[:0]
+		}
+	}()
 	compare := func(step int) error {
 		idx := c.Idx[step] % len(m.In)
 		ht := c.Types[step] & 0xff
@@ -93,8 +116,31 @@ func checkEdits(ctx *pbt.Ctx, c EditCase) error {
 	if err := compare(0); err != nil {
 		return err
 	}
+	// roots[i] = the first slot that holds the same *bt.Input object as slot i ("dupin" puts one
+	// object into two slots: an edit of it shows in both)
+	roots := make([]int, len(m.In))
+	for i := range roots {
+		roots[i] = i
+	}
 	for i, e := range c.Edits {
-		e.applyModel(&m)
+		switch e.Kind {
+		case "seq", "vout", "prevsats", "prevscript", "appendunlock":
+			target := roots[e.At%len(m.In)]
+			for j := range m.In {
+				if roots[j] == target {
+					e2 := e
+					e2.At = j
+					e2.applyModel(&m)
+				}
+			}
+		case "dupin":
+			if len(m.In) < 8 {
+				roots = append(roots, roots[e.At%len(m.In)])
+			}
+			e.applyModel(&m)
+		default:
+			e.applyModel(&m)
+		}
 		// the same edit on the library object, in place
 		switch e.Kind {
 		case "seq":
@@ -117,6 +163,31 @@ func checkEdits(ctx *pbt.Ctx, c EditCase) error {
 			tx.Version = uint32(e.U64)
 		case "locktime":
 			tx.LockTime = uint32(e.U64)
+		case "dupin":
+			if len(tx.Inputs) < 8 {
+				tx.Inputs = append(tx.Inputs, tx.Inputs[e.At%len(tx.Inputs)])
+			}
+		case "appendunlock":
+			if in := tx.Inputs[e.At%len(tx.Inputs)]; in.UnlockingScript != nil {
+				*in.UnlockingScript = append(*in.UnlockingScript, e.B...)
+			}
+		case "elsewhere":
+			// another transaction of the caller: parsed from bytes, cloned, and its empty unlocking
+			// scripts filled in place through the pointers the parser handed out (undone when the
+			// case ends, so that a library that shares such objects is reported by this case and
+			// does not confuse the following ones)
+			other, perr := bt.NewTxFromBytes(elsewhereBytes)
+			if perr != nil {
+				return fmt.Errorf("harness: %v", perr)
+			}
+			for _, o := range []*bt.Tx{other, other.Clone(), tx.Clone()} {
+				for _, in := range o.Inputs {
+					if s := in.UnlockingScript; s != nil && len(*s) == 0 {
+						*s = append(*s, e.B...)
+						undo = append(undo, s)
+					}
+				}
+			}
 		}
 		ctx.Label("edit=" + e.Kind)
 		if err := compare(i + 1); err != nil {
@@ -136,7 +207,7 @@ func TestEdits(t *testing.T) {
 			n := rapid.IntRange(1, 4).Draw(t, "n_edits")
 			for i := 0; i < n; i++ {
 				c.Edits = append(c.Edits, Edit{
-					Kind: rapid.SampledFrom([]string{"seq", "seq", "vout", "sats", "sats", "oscript", "prevsats", "prevscript", "version", "locktime"}).Draw(t, "kind"),
+					Kind: rapid.SampledFrom([]string{"seq", "seq", "vout", "sats", "sats", "oscript", "prevsats", "prevscript", "version", "locktime", "dupin", "appendunlock", "elsewhere", "elsewhere"}).Draw(t, "kind"),
 					At:   rapid.IntRange(0, 3).Draw(t, "at"), U64: gen.U64(t, "val"), B: gen.BytesUpTo(t, 30, "bytes")})
 			}
 			for i := 0; i <= n; i++ {
